@@ -34,6 +34,9 @@ LinClauses(e) ==
     zero     |-> ok => e.fz = e.f0,
     compose  |-> ok => e.fab = e.fs,
     inverse  |-> ok => e.fr = e.f0,
+    (* a stepped value is indistinguishable from the value its type's constructor builds at that position
+       (own fields, pillars and derived views included): stepping carries no state along *)
+    canonical |-> ok => e.fca = e.fa /\ e.fcs = e.fs,
     formed   |-> ok => (WellFormed(t, e.f0) /\ WellFormed(t, e.fa) /\ WellFormed(t, e.fs)),
     unit     |-> ok =>
                   CASE HasOrd(t) -> Ord(t, e.fa) = Ord(t, e.f0) + e.a * Unit(t) /\ Ord(t, e.fs) = Ord(t, e.f0) + (e.a + e.b) * Unit(t)
